@@ -82,7 +82,7 @@ class BindSim:
     properties = ['C11']
 
     def budget(self, prop, tier):
-        return {'quick': {'runs': 6000, 'seconds': 50}, 'thorough': {'runs': 400000, 'seconds': 600}}[tier]
+        return {'quick': {'runs': 9000, 'seconds': 50}, 'thorough': {'runs': 400000, 'seconds': 600}}[tier]
 
     def rule(self, prop):
         return ('plans drawn from VERIF_SEED: pool of 2-5 datasets (valid per convention, near-misses with one distinguishing '
